@@ -206,7 +206,7 @@ PROPS["C06"] = dict(
 )
 
 PROPS["C05"] = dict(
-    props_file="Props/C05.v", gen=["StrategyGen"],
+    props_file="Props/C05.v", gen=["StrategyGen", "BackendGen"],
     suites=[dict(suite="strategy", corr=["diff"], monitors=["mon_rr", "mon_wrr_exact", "mon_wrr_bound", "mon_wrr_proved", "mon_lc"],
                  classifiers={"wrr-flap-beyond-two-ratio": "cls_wrr_flap", "wrr-stale-after-removal": "cls_wrr_removed"}, nontrivial="nt_c05"),
             # "weights below 1 count as 1" on every path a backend can be added by (configuration and admin API)
@@ -310,7 +310,7 @@ PROPS["C11"] = dict(
     trusted_base=_LB_TRUST, assumptions=[],
 )
 PROPS["C13"] = dict(
-    props_file="Props/C13.v",
+    props_file="Props/C13.v", gen=["BackendGen"],
     suites=[dict(suite="lbseq", corr=["diff_metrics"], monitors=["mon_c13_total", "mon_c13_partition", "mon_c13_backend", "mon_c13_gauge"],
                  classifiers={"gauge-stale-after-readd-while-draining": "cls_readd_draining"}, nontrivial="nt_c13")],
     rule="balancer histories mixing ok / 4xx / 5xx / unreachable / aborted-mid-body / rate-limited / breaker-rejected / "
